@@ -313,10 +313,10 @@ def bit_length_by_type(chk, rule: str) -> bool:
 def _packer(chk, repo, folder: Folder, cls, signed: bool):
     name = cls.name
     where0 = f"{DT}:{cls.node.lineno}"
-    init = cls.methods.get("__init__")
-    pack = cls.methods.get("pack")
-    unpack = cls.methods.get("unpack")
-    size = cls.methods.get("size")
+    init = repo.method(cls, "__init__")
+    pack = repo.method(cls, "pack")
+    unpack = repo.method(cls, "unpack")
+    size = repo.method(cls, "size")
     if not (init and pack and unpack and size):
         raise AnalysisError("C04.R3", f"{name} lacks one of __init__/pack/unpack/size")
     for f in (init, pack, unpack, size):
@@ -423,9 +423,27 @@ def _packer(chk, repo, folder: Folder, cls, signed: bool):
     is_fill = lambda e: isinstance(e, ast.IfExp) or (isinstance(e, ast.Constant) and isinstance(e.value, bytes))  # noqa
     if is_fill(count) and not is_fill(pad):
         pad, count = count, pad
-    chk.check(src(count) in ("super().size - self.size",), "R3", f"{DT}:{name}.unpack | pad count", unpack.loc(calls[0]),
-              f"pad count is {src(count)}, expected super().size - self.size (so that only a buffer of exactly self.size "
-              f"bytes reaches the wide format's size)")
+    # pad count = (size of the wide struct format) - (own size): `super(...)` must resolve past every repository class that
+    # overrides `size`, i.e. to struct.Struct.size
+    ok_cnt, why_cnt = False, f"pad count is {src(count)}, expected super().size - self.size"
+    if isinstance(count, ast.BinOp) and isinstance(count.op, ast.Sub) and src(count.right) == "self.size" and isinstance(count.left, ast.Attribute) and count.left.attr == "size" \
+            and isinstance(count.left.value, ast.Call) and dotted(count.left.value.func) == "super":
+        sargs = count.left.value.args
+        chain = repo.mro(unpack.cls if unpack.cls is not None else cls)
+        start_cls = unpack.cls if unpack.cls is not None else cls
+        if len(sargs) == 2 and src(sargs[1]) == "self":
+            start_cls = next((k for k in repo.mro(cls) if k.name == src(sargs[0])), None)
+        elif sargs:
+            start_cls = None
+        if start_cls is not None:
+            full = repo.mro(cls)
+            idx = [i for i, k in enumerate(full) if k is start_cls]
+            later = full[idx[0] + 1:] if idx else []
+            overriders = [k.name for k in later if "size" in k.methods or "size" in k.consts]
+            ok_cnt = not overriders
+            if overriders:
+                why_cnt = f"`{src(count.left)}` resolves to {overriders[0]}.size (the narrow size), not to struct.Struct.size: the pad count is 0 and short buffers are not rejected"
+    chk.check(ok_cnt, "R3", f"{DT}:{name}.unpack | pad count", unpack.loc(calls[0]), why_cnt + " (so that only a buffer of exactly self.size bytes reaches the wide format's size)")
     if not signed:
         v = folder.try_fold(pad, Scope(cls.mod, cls), None)
         chk.check(v == b"\x00", "R3", f"{DT}:{name}.unpack | pad byte", unpack.loc(calls[0]), f"pad byte is {v!r}, expected b'\\x00'")
